@@ -25,7 +25,7 @@ THEOREMS = [
     "Docstring.render_failure_masked_old_counterexample", "Docstring.reported_once_phase",
     "Docstring.recovered_errors_reported",
     "Docstring.reported_once", "Docstring.second_call_silent", "Docstring.doc_second_call", "Docstring.isolation",
-    "Docstring.summary_fallback_touches_source", "Docstring.extract_spec",
+    "Docstring.summary_fallback_touches_source", "Docstring.summary_fallback_overwrites_class_summary", "Docstring.extract_spec",
     "Docstring.summary_failure_unreported_counterexample", "Docstring.blanked_docstring_fallback_counterexample",
     # the further wrappers (round 3)
     "Docstring.pyval_total", "Docstring.pyval_failure_reported", "Docstring.signature_total",
@@ -828,7 +828,12 @@ def ops_for(x: int, order: str, extract_first: bool) -> List[Tuple[str, int]]:
     ops = [("d", y), ("s", y)]
     if extract_first and x in (0, 1):
         ops.append(("x", x))
+    h = holder_of(x)
+    if h != x:
+        ops.append(("s", h))      # the summary of the object the docstring is written on, before …
     ops += [(c, x) for c in order] * 2
+    if h != x:
+        ops.append(("s", h))      # … and after the inheriting object has been rendered
     ops += [("d", y), ("s", y), ("t", y)]
     return ops
 
@@ -951,7 +956,7 @@ def wrapper_fault_cases():
                     sp = base_spec("e", pt, 1, x, TEXTS[n % len(TEXTS)])
                     sp["par"][("e", x)] = PARSER_OUTCOMES[n % 2]
                     sp["pd"] = {1: dict(d(1), F=list(fs)), 10: dict(d(10), S=("r10" if sk == "r" else "xo7"), N=nk), 11: dict(d(11))}
-                    sp["ops"] = [("x", x), ("d", child), ("s", child), ("y", child), ("t", child), ("q", child), ("d", x), ("d", child)]
+                    sp["ops"] = [("x", x), ("s", x), ("d", child), ("s", child), ("y", child), ("t", child), ("q", child), ("d", x), ("d", child), ("s", x)]
                     yield sp
 
 
@@ -1119,6 +1124,22 @@ def wrapper_failure(ctx: Ctx, t, inp, injected_pyval: bool) -> bool:
     return False
 
 
+def summary_stability(trace):
+    """objects whose summary changed between two format_summary calls although nothing was done to them in between
+    (extract_fields re-parses, so it resets the comparison): [(obj, before, after, ops in between)]"""
+    last: Dict[int, Tuple[str, int]] = {}
+    bad = []
+    for n, t in enumerate(trace):
+        if t["op"] == "x":
+            last = {}
+        elif t["op"] == "s" and t["raised"] is None and not t["hang"]:
+            if t["obj"] in last and last[t["obj"]][0] != t["tok"]:
+                k = last[t["obj"]][1]
+                bad.append((t["obj"], last[t["obj"]][0], t["tok"], "".join("%s:%d " % (u["op"], u["obj"]) for u in trace[k + 1:n])))
+            last[t["obj"]] = (t["tok"], n)
+    return bad
+
+
 def fault_oracle(ctx: Ctx, w: World, spec: Dict[str, Any], trace) -> None:
     from pydoctor.epydoc.markup.plaintext import ParsedPlaintextDocstring
 
@@ -1150,6 +1171,10 @@ def fault_oracle(ctx: Ctx, w: World, spec: Dict[str, Any], trace) -> None:
             seen = {k: v for k, v in seen.items() if k[1] != t["obj"]}
         seen[key] = 1
         prev = t["nreports"]
+    for (i, before, after, between) in summary_stability(trace):
+        fail("summary:fallback-overwrites-source-summary", "the summary of %s changed from %s to %s after rendering OTHER objects (%s): "
+             "format_summary_fallback stores the BROKEN summary on the source of the docstring instead of the object being rendered"
+             % (NAMES[i], before[:30], after[:30], between.strip()))
     errs_now = {w.ids[n] for n in w.system.parse_errors.get("docstring", ())}
     reported = {}
     for (i, descr, section, off) in w.reports:
@@ -1476,6 +1501,7 @@ REGRESSION_DOCS = [
     "Run the job.\n\nPage one of the notes,\x0ccontinued after an odd character.\nPage two of the notes.",
     "Run the job.\n\nPage one of the notes,\ufffecontinued after an odd character.\nPage two of the notes.",
     "Summary.\n @param a: x\n\n@param b: y",
+    "Summary.\n\n    @note: x\n\n@param y: z",
     "Summary.\n @ivar a: x\n\n@ivar b: y",
     "@type: C{a\x0cb}",
     ":type: ``a\xa0b``",
@@ -1553,7 +1579,9 @@ REAL_ORDERS = ["edst", "sdte", "tsde"]   # pydoctor itself asks for summaries (l
 
 def real_ops(x: int, order: int = 0) -> List[Tuple[str, int]]:
     y = BYSTANDER
-    return [("d", y), ("s", y)] + [(c, x) for c in REAL_ORDERS[order % 3]] * 2 + [("d", y), ("s", y), ("t", y)]
+    h = holder_of(x)
+    around = [("s", h)] if h != x else []
+    return [("d", y), ("s", y)] + around + [(c, x) for c in REAL_ORDERS[order % 3]] * 2 + around + [("d", y), ("s", y), ("t", y)]
 
 
 class Observer:
@@ -1671,9 +1699,16 @@ class Observer:
             self.spec["pd"][base] = {"S": self.stan_out(val, linker, base), "N": n, "W": wtok, "T": ttok, "F": fs}
             self.names[id(val)] = "user%d[%s]" % (base, ";".join("%d/u%d/0" % (f[0], f[1]) for f in fs) or "-")
         pd = o.parsed_docstring
-        if isinstance(pd, ParsedPlaintextDocstring):
+        if isinstance(pd, ParsedPlaintextDocstring) and pd._text not in self.spec["plainfor"]:
             n, wtok, ttok = self.observe_pd(pd, linker, base + 5, base + 3, base + 4)
             self.spec["plainfor"][pd._text] = (n, wtok, ttok)
+        elif isinstance(pd, ParsedPlaintextDocstring):
+            # same text as an object observed before (the inheriting object): same declared behaviour, its own summary object
+            wtok = self.spec["plainfor"][pd._text][1]
+            with quiet():
+                sm = pd.get_summary()
+            if wtok[0] == "s":
+                self.names[id(sm)] = "user%s[-]" % wtok[1:]
 
     def descr_token(self, d: str) -> str:
         if d in self.descr:
@@ -1691,8 +1726,10 @@ def real_role(w: World, x: int):
     from pydoctor.epydoc.markup.plaintext import ParsedPlaintextDocstring
 
     def role(i: int, r: str) -> str:
-        base = 1 if i == x else 21
+        base = 1 if i == x else (41 if i == holder_of(x) else 21)
         plain = isinstance(w.objs[i].parsed_docstring, ParsedPlaintextDocstring)
+        if plain and i == holder_of(x):
+            base = 1      # plaintext behaviours are declared per TEXT (`plainfor`): x and the object it inherits from share it
         if r == "body":
             return "o%d" % base
         if r == "summary":
@@ -1716,7 +1753,7 @@ def run_real_case(w: World, fmt: str, pt: int, x: int, doc: str, td: int, limit:
         return None, None, trace, rec
     ob = Observer(w, fmt, pt, td)
     with time_limit(limit):
-        for (i, base, d) in ((x, 1, doc), (BYSTANDER, 21, BYST_REAL)):
+        for (i, base, d) in ((x, 1, doc), (BYSTANDER, 21, BYST_REAL)) + (((holder_of(x), 41, doc),) if holder_of(x) != x else ()):
             first = next((t for t in trace if t["op"] == "d" and t["obj"] == i and "field_bodies" in t), None)
             ob.observe_obj(i, base, d, first)
     ob.spec["ops"] = ops
@@ -1783,6 +1820,10 @@ def real_oracle(ctx: Ctx, w: World, fmt: str, pt: int, x: int, doc: str, td: int
             fail("reported-twice:" + opn, "a repeated %s call filed more reports" % opn)
         seen.add((t["op"], t["obj"]))
         prev = t["nreports"]
+    for (i, before, after, between) in summary_stability(trace):
+        fail("summary:fallback-overwrites-source-summary", "the summary of %s changed from %s to %s after rendering OTHER objects (%s): "
+             "format_summary_fallback stores the BROKEN summary on the source of the docstring instead of the object being rendered"
+             % (NAMES[i], before[:30], after[:30], between.strip()))
     errs_now = {w.ids.get(n, 99) for n in w.system.parse_errors.get("docstring", ())}
     bad = [r for r in w.reports if r[2] == "docstring" and r[1].startswith("bad docstring: ")]
     hold = holder_of(x)     # the object the text is written on; x inherits it when h != x
@@ -1951,6 +1992,45 @@ def builder_case(ctx: Ctx, fmt: str, pt: int, doc: str, limit: float) -> None:
                              "written (%r)%s" % (name, htmlmod.unescape(m.group(1))[:40], written[:40],
                                                  ": _handlePropertyDef blanks attr.docstring when the docstring is only a @return field" if name == "sm.K.p" else ""))
         ctx.count("builder:objects")
+
+
+SPLIT_DOCS = [("e", "Class summary line.\n\n@ivar x: the \x0c thing"), ("e", "Class summary line.\n\n@ivar x: the \ufffe thing\n@ivar y: fine"),
+              ("r", "Class summary line.\n\n:ivar x: the \x0c thing"), ("g", "Class summary line.\n\nAttributes:\n    x: the \x0c thing"),
+              ("n", "Class summary line.\n\nAttributes\n----------\nx\n    the \x0c thing"), ("e", "Class summary line.\n\n@ivar x: healthy")]
+
+
+def builder_split_case(ctx: Ctx, fmt: str, doc: str, limit: float) -> None:
+    """a class docstring documenting an attribute through a field, through the AST builder: rendering the attribute must
+    not change what is shown for the class (oracle only)"""
+    from pydoctor import model, epydoc2stan as E
+    src = "class K:\n    %s\n    x = 1\n    y = 2\n" % repr(doc)
+    inp = {"kind": "builder-split", "fmt": fmt, "doc_repr": repr(doc)}
+    s = model.System()
+    s.options.docformat = FMT_OF[fmt]
+    for order in (("K", "x", "K"), ("x", "K", "x", "K")):
+        try:
+            with quiet(), time_limit(limit):
+                sy = model.System()
+                sy.options.docformat = FMT_OF[fmt]
+                b = sy.systemBuilder(sy)
+                b.addModuleString(src, "sm")
+                b.buildModules()
+                seen: Dict[str, str] = {}
+                for n in order:
+                    o = sy.allobjects["sm.K" if n == "K" else "sm.K.x"]
+                    st = E.format_summary(o)
+                    tok = canon_stan(st, "real:" + (flatten_safely(st)[0] or "?")[:60])
+                    if n in seen and seen[n] != tok:
+                        ctx.fail("summary:fallback-overwrites-source-summary", inp, "the summary of %s changed from %s to %s after the "
+                                 "summary of the attribute it documents by a field was rendered (order %s)" % (n, seen[n][:40], tok[:40], "".join(order)))
+                    seen[n] = tok
+                    E.format_docstring(o)
+        except Hang:
+            ctx.fail("hang:summary", inp, "did not return")
+            return
+        except Exception as e:
+            ctx.fail("summary:raises:" + type(e).__name__, inp, "raised")
+    ctx.count("builder:split-cases")
 
 
 def surrogate_case(ctx: Ctx, fmt: str, pt: int, doc: str, limit: float) -> None:
@@ -2127,6 +2207,9 @@ def run(ctx: Ctx) -> None:
                 continue
             builder_case(ctx, fmt, (n + fi) % 2, doc, limit)
             ctx.case("builder %s %r" % (fmt, doc), True, None)
+    for fmt, doc in SPLIT_DOCS:
+        builder_split_case(ctx, fmt, doc, limit)
+        ctx.case("builder-split %s %r" % (fmt, doc), True, None)
     nsur = 6 if ctx.quick else 60
     for n in range(nsur):
         doc = gen_unicode(ctx.rng, surrogates=True) if n else "x \udc80 y"
@@ -2164,6 +2247,11 @@ def replay(ctx: Ctx, obj) -> int:
         print("impl   :", impl)
         if verdict:
             ctx.fail(verdict[0], inp, verdict[1])
+    elif inp.get("kind") == "builder-split":
+        n0 = len(ctx.failures)
+        builder_split_case(ctx, inp["fmt"], ast.literal_eval(inp["doc_repr"]), 20.0)
+        req = None
+        print("class docstring:", inp["doc_repr"])
     elif inp.get("kind") in ("surrogate", "builder"):
         n0 = len(ctx.failures)
         surrogate_case(ctx, inp["fmt"], inp["pt"], ast.literal_eval(inp["doc_repr"]), 20.0)
